@@ -175,6 +175,16 @@ def _trans(decl, name, p):
             return _trans_atom(name, p) if c > 0 else _trans_neg(name, {m: -c})
         if c < 0:
             return _trans_neg(name, {m: -c})
+        if TRIG_EXPAND[0] and c.denominator == 1 and 2 <= c <= 6:
+            # integer multiple: n*x = x + (n-1)*x, expanded by the addition theorems
+            first, rest = {m: Fraction(1)}, {m: c - 1}
+            if name == "ER":
+                return p_mul(_trans(decl, "ER", first), _trans(decl, "ER", rest))
+            c1, s1 = _trans(decl, "COS", first), _trans(decl, "SIN", first)
+            c2, s2 = _trans(decl, "COS", rest), _trans(decl, "SIN", rest)
+            if name == "COS":
+                return p_add(p_mul(c1, c2), p_scale(p_mul(s1, s2), -1))
+            return p_add(p_mul(s1, c2), p_mul(c1, s2))
         return _trans_atom(name, p)
     first = {items[0][0]: items[0][1]}
     rest = dict(items[1:])
@@ -241,6 +251,46 @@ def poly(e) -> dict:
     return r
 
 
+_COND_CACHE = {}
+_CMP = {z3.Z3_OP_LE: lambda a: a <= 0, z3.Z3_OP_LT: lambda a: a < 0, z3.Z3_OP_GE: lambda a: a >= 0, z3.Z3_OP_GT: lambda a: a > 0}
+
+
+def canon_cond(c):
+    """boolean guard in canonical form: comparisons become `normal_form(lhs - rhs) OP 0`, connectives are mapped
+    recursively (so that `k <= low - 1` and `k <= -1 + low` are the same atom)"""
+    i = c.get_id()
+    if i in _COND_CACHE:
+        return _COND_CACHE[i]
+    r = c
+    try:
+        if z3.is_app(c):
+            k = c.decl().kind()
+            ch = c.children()
+            if k in (z3.Z3_OP_AND, z3.Z3_OP_OR):
+                parts = [canon_cond(x) for x in ch]
+                r = z3.And(*parts) if k == z3.Z3_OP_AND else z3.Or(*parts)
+            elif k == z3.Z3_OP_NOT:
+                r = z3.Not(canon_cond(ch[0]))
+            elif k in _CMP and z3.is_arith(ch[0]):
+                d = p_add(poly(ch[0]), p_scale(poly(ch[1]), -1))
+                r = _CMP[k](rebuild(d))
+            elif k in (z3.Z3_OP_EQ, z3.Z3_OP_DISTINCT) and len(ch) == 2 and z3.is_arith(ch[0]):
+                d = p_add(poly(ch[0]), p_scale(poly(ch[1]), -1))
+                # sign-normalise: leading coefficient positive
+                if d:
+                    lead = d[sorted(d, key=lambda mm: (_mono_key(mm), mm))[0]]
+                    if lead < 0:
+                        d = p_scale(d, -1)
+                t = rebuild(d)
+                r = (t == 0) if k == z3.Z3_OP_EQ else (t != 0)
+    except PolyTooLarge:
+        r = c
+    _COND_CACHE[i] = r
+    _KEEP.append(c)
+    _KEEP.append(r)
+    return r
+
+
 def _poly(e):
     if z3.is_int_value(e):
         return _const(e.as_long())
@@ -278,25 +328,30 @@ def _poly(e):
         # only mask-like ites (one branch identically 0) become multiplicative indicators; a general ite stays an atom
         # whose branches are put in normal form (so that equal branches written differently give the same atom)
         pa, pb = poly(ch[1]), poly(ch[2])
+        cond = canon_cond(ch[0])
         if not pb:
-            ind = z3.If(ch[0], z3.RealVal(1), z3.RealVal(0))
+            ind = z3.If(cond, z3.RealVal(1), z3.RealVal(0))
             INDICATORS.add(ind.get_id())
             _KEEP.append(ind)
             return p_mul(_atom(ind), pa)
         if not pa:
-            ind = z3.If(ch[0], z3.RealVal(0), z3.RealVal(1))
+            ind = z3.If(cond, z3.RealVal(0), z3.RealVal(1))
             INDICATORS.add(ind.get_id())
             _KEEP.append(ind)
             return p_mul(_atom(ind), pb)
         if e.sort() == z3.RealSort():
             try:
                 na, nb = rebuild(pa), rebuild(pb)
-                if na.get_id() != ch[1].get_id() or nb.get_id() != ch[2].get_id():
-                    e2 = z3.If(ch[0], na, nb)
+                if na.get_id() != ch[1].get_id() or nb.get_id() != ch[2].get_id() or cond.get_id() != ch[0].get_id():
+                    e2 = z3.If(cond, na, nb)
                     _KEEP.append(e2)
                     return _atom(e2)
             except PolyTooLarge:
                 pass
+        elif cond.get_id() != ch[0].get_id():
+            e2 = z3.If(cond, ch[1], ch[2])
+            _KEEP.append(e2)
+            return _atom(e2)
         return _atom(e)
     if k == z3.Z3_OP_DIV:
         den = poly(ch[1])
@@ -411,6 +466,16 @@ _SKEY = {}
 _GEN = {}
 
 
+import re as _re
+
+_IXLIKE = _re.compile(r"^(IX!|BV!|vb!|sj!)")
+
+
+def is_indexlike(name):
+    """index-like constants: fresh element indices (IX!), operator bound variables (BV!), vmap / scan indices"""
+    return bool(_IXLIKE.match(name))
+
+
 def structural_key(e):
     """name-independent ordering key of an atom: its s-expression with every free 0-ary constant replaced by one
     generic constant per sort (bound index variables, whose names contain '!', keep their names)"""
@@ -435,6 +500,8 @@ def structural_key(e):
                             _GEN[("bv", pos)] = z3.Int(f"?bv{pos}")
                         subs.append((x, _GEN[("bv", pos)]))
                         continue
+                    if not is_indexlike(nm):
+                        continue  # named harness symbols keep their names (they are the same in code and spec)
                     sn = x.sort().name()
                     if sn not in _GEN:
                         _GEN[sn] = z3.Const(f"?{sn}", x.sort())
